@@ -182,6 +182,98 @@ pub fn drain<I: Iterator>(it: &mut I, cap: usize) -> (Vec<I::Item>, bool, bool) 
     (v, fused, capped)
 }
 
+
+/// Iterator methods other than `next()`: a client may finish a (partially advanced) traversal by
+/// internal iteration - `count`, `last`, `fold`/`for_each`, `nth`, `skip` - and every one of them
+/// must describe the same remaining sequence. `mk` makes a fresh iterator, which is advanced by
+/// `j` calls of `next()` first.
+pub fn consumer_checks<I, T>(mut mk: impl FnMut() -> I, conv: impl Fn(I::Item) -> T + Copy, exp: &[T], j: usize, k: usize) -> Result<(), (&'static str, String)>
+where
+    I: Iterator,
+    T: PartialEq + std::fmt::Debug + Clone,
+{
+    let j = j.min(exp.len());
+    let rest = &exp[j..];
+    let k = if rest.is_empty() { 0 } else { k % (rest.len() + 1) };
+    let adv = |it: &mut I| {
+        for _ in 0..j {
+            it.next();
+        }
+    };
+    let mut it = mk();
+    adv(&mut it);
+    let (lo, hi) = it.size_hint();
+    if lo > rest.len() || hi.map(|h| h < rest.len()).unwrap_or(false) {
+        return Err(("size_hint", format!("after {j} next(): size_hint() = ({lo}, {:?}) but {} items remain", hi, rest.len())));
+    }
+    let c = it.count();
+    if c != rest.len() {
+        return Err(("count", format!("after {j} next(): count() = {c} but {} items remain ({:?})", rest.len(), rest)));
+    }
+    let mut it = mk();
+    adv(&mut it);
+    let l = it.last().map(conv);
+    if l != rest.last().cloned() {
+        return Err(("last", format!("after {j} next(): last() = {:?}, expected {:?}", l, rest.last())));
+    }
+    let mut it = mk();
+    adv(&mut it);
+    let v = it.fold(Vec::new(), |mut v, x| {
+        v.push(conv(x));
+        v
+    });
+    if v != rest {
+        return Err(("fold", format!("after {j} next(): fold()/for_each() visits {:?}, expected {:?}", v, rest)));
+    }
+    let mut it = mk();
+    adv(&mut it);
+    let n = it.nth(k).map(conv);
+    let tail: Vec<T> = it.map(conv).collect();
+    let exp_tail: &[T] = if k < rest.len() { &rest[k + 1..] } else { &[] };
+    if n != rest.get(k).cloned() || tail != exp_tail {
+        return Err(("nth", format!("after {j} next(): nth({k}) = {:?} then {:?}, expected {:?} then {:?}", n, tail, rest.get(k), exp_tail)));
+    }
+    let mut it = mk();
+    adv(&mut it);
+    let v: Vec<T> = it.skip(k).map(conv).collect();
+    if v != rest[k.min(rest.len())..] {
+        return Err(("skip", format!("after {j} next(): skip({k}) yields {:?}, expected {:?}", v, &rest[k.min(rest.len())..])));
+    }
+    Ok(())
+}
+
+/// `clone_from` into an iterator that is itself in the middle of (another) traversal
+pub fn clone_from_check<I, T>(mut mk: impl FnMut() -> I, conv: impl Fn(I::Item) -> T + Copy, exp: &[T], j: usize, d: usize, cap: usize) -> Result<(), (&'static str, String)>
+where
+    I: Iterator + Clone,
+    T: PartialEq + std::fmt::Debug + Clone,
+{
+    let j = j.min(exp.len());
+    let mut src = mk();
+    for _ in 0..j {
+        src.next();
+    }
+    let mut dst = mk();
+    for _ in 0..d {
+        dst.next();
+    }
+    dst.clone_from(&src);
+    let a: Vec<T> = dst.take(cap).map(conv).collect();
+    let b: Vec<T> = src.take(cap).map(conv).collect();
+    if a != exp[j..] || b != exp[j..] {
+        return Err(("clone_from", format!("clone_from of an iterator advanced by {j} into one advanced by {d}: copy yields {:?}, source yields {:?}, expected {:?}", a, b, &exp[j..])));
+    }
+    Ok(())
+}
+
+macro_rules! consumers {
+    ($ctx:expr, $p:expr, $name:expr, $res:expr) => {
+        if let Err((m, d)) = $res {
+            chk!($ctx, $p, false, format!("consumer:{}:{}", $name, m), "{}: {}", $name, d);
+        }
+    };
+}
+
 macro_rules! seq_check {
     ($ctx:expr, $p:expr, $name:expr, $got:expr, $exp:expr, $fused:expr, $capped:expr) => {
         chk!($ctx, $p, !$capped, format!("diverge:{}", $name), "{} yielded more than {} items", $name, $exp.len());
@@ -283,6 +375,62 @@ pub fn pack_c03_map<P: SimPrefix>(ctx: &mut Ctx, real: &mut PrefixMap<P, Val>, t
     let restv: Vec<u64> = expv[split.min(expv.len())..].to_vec();
     seq_check!(ctx, "C03", "values.clone(original)", a, restv, true, false);
     seq_check!(ctx, "C03", "values.clone(clone)", b, restv, true, false);
+    // every iterator method, not only next(): count/last/fold/nth/skip after `split` next() calls,
+    // and clone_from into an iterator that is in the middle of a traversal
+    if ctx.is("C03") {
+        let kk = (mix64(ctx.salt ^ 0x77 ^ ctx.step as u64) % 5) as usize;
+        let dd = (mix64(ctx.salt ^ 0x99 ^ ctx.step as u64) % 3) as usize;
+        let r = ctx.obs("C03", "iter(consumers)", || consumer_checks(|| real.iter(), |(p, v)| (p.raw(), v.payload), &exp, split, kk))?;
+        consumers!(ctx, "C03", "iter", r);
+        let r = ctx.obs("C03", "keys(consumers)", || consumer_checks(|| real.keys(), |p| p.raw(), &expk, split, kk))?;
+        consumers!(ctx, "C03", "keys", r);
+        let r = ctx.obs("C03", "values(consumers)", || consumer_checks(|| real.values(), |v| v.payload, &expv, split, kk))?;
+        consumers!(ctx, "C03", "values", r);
+        let r = ctx.obs("C03", "&map(consumers)", || consumer_checks(|| (&*real).into_iter(), |(p, v)| (p.raw(), v.payload), &exp, split, kk))?;
+        consumers!(ctx, "C03", "&map.into_iter", r);
+        let r = ctx.obs("C03", "iter.clone_from", || clone_from_check(|| real.iter(), |(p, v)| (p.raw(), v.payload), &exp, split, dd, cap))?;
+        consumers!(ctx, "C03", "iter", r);
+        let r = ctx.obs("C03", "keys.clone_from", || clone_from_check(|| real.keys(), |p| p.raw(), &expk, split, dd, cap))?;
+        consumers!(ctx, "C03", "keys", r);
+        let r = ctx.obs("C03", "values.clone_from", || clone_from_check(|| real.values(), |v| v.payload, &expv, split, dd, cap))?;
+        consumers!(ctx, "C03", "values", r);
+        let r = ctx.obs("C03", "iter_mut(consumers)", || {
+            let mut count_ok = Ok(());
+            for variant in 0..2 {
+                let mut it = real.iter_mut();
+                for _ in 0..split.min(exp.len()) {
+                    it.next();
+                }
+                let rest = &exp[split.min(exp.len())..];
+                if variant == 0 {
+                    let c = it.count();
+                    if c != rest.len() {
+                        count_ok = Err(("count", format!("iter_mut after {split} next(): count() = {c}, {} remain", rest.len())));
+                    }
+                } else {
+                    let v = it.fold(Vec::new(), |mut v, (p, x)| {
+                        v.push((p.raw(), x.payload));
+                        v
+                    });
+                    if v != rest {
+                        count_ok = Err(("fold", format!("iter_mut after {split} next(): fold() visits {:?}, expected {:?}", v, rest)));
+                    }
+                }
+            }
+            count_ok
+        })?;
+        consumers!(ctx, "C03", "iter_mut", r);
+        if ctx.step % 3 == 1 {
+            let r = ctx.obs("C03", "into_iter(consumers)", || consumer_checks(|| real.clone().into_iter(), |(p, v)| (p.raw(), v.payload), &exp, split, kk))?;
+            consumers!(ctx, "C03", "into_iter", r);
+            let r = ctx.obs("C03", "into_keys(consumers)", || consumer_checks(|| real.clone().into_keys(), |p| p.raw(), &expk, split, kk))?;
+            consumers!(ctx, "C03", "into_keys", r);
+            let r = ctx.obs("C03", "into_values(consumers)", || consumer_checks(|| real.clone().into_values(), |v| v.payload, &expv, split, kk))?;
+            consumers!(ctx, "C03", "into_values", r);
+            let r = ctx.obs("C03", "into_iter.clone_from", || clone_from_check(|| real.clone().into_iter(), |(p, v)| (p.raw(), v.payload), &exp, split, dd, cap))?;
+            consumers!(ctx, "C03", "into_iter", r);
+        }
+    }
     // consuming forms, on a clone of the map (every 3rd step: clones are comparatively costly)
     if ctx.step % 3 == 0 {
         let (g, f, c, g2) = ctx.obs("C03", "into_iter", || {
@@ -344,6 +492,18 @@ pub fn pack_c03_set<P: SimPrefix>(ctx: &mut Ctx, real: &PrefixSet<P>, t: &Truth,
     let restk: Vec<Raw> = expk[split.min(expk.len())..].to_vec();
     seq_check!(ctx, "C03", "set.iter.clone(original)", a, restk, true, false);
     seq_check!(ctx, "C03", "set.iter.clone(clone)", b, restk, true, false);
+    if ctx.is("C03") {
+        let kk = (mix64(ctx.salt ^ 0x77 ^ ctx.step as u64) % 5) as usize;
+        let dd = (mix64(ctx.salt ^ 0x99 ^ ctx.step as u64) % 3) as usize;
+        let r = ctx.obs("C03", "set.iter(consumers)", || consumer_checks(|| real.iter(), |p| p.raw(), &expk, split, kk))?;
+        consumers!(ctx, "C03", "set.iter", r);
+        let r = ctx.obs("C03", "set.iter.clone_from", || clone_from_check(|| real.iter(), |p| p.raw(), &expk, split, dd, cap))?;
+        consumers!(ctx, "C03", "set.iter", r);
+        if ctx.step % 3 == 1 {
+            let r = ctx.obs("C03", "set.into_iter(consumers)", || consumer_checks(|| real.clone().into_iter(), |p| p.raw(), &expk, split, kk))?;
+            consumers!(ctx, "C03", "set.into_iter", r);
+        }
+    }
     if ctx.step % 3 == 0 {
         let (g, f, c, g2) = ctx.obs("C03", "set.into_iter", || {
             let mut it = real.clone().into_iter();
@@ -404,6 +564,16 @@ pub fn pack_c09_map<P: SimPrefix>(ctx: &mut Ctx, cfg: &Cfg, real: &mut PrefixMap
         })?;
         let expv: Vec<u64> = exp.iter().map(|x| x.1).collect();
         seq_check!(ctx, "C09", format!("cover_values({q})"), g, expv, f, c);
+        if ctx.is("C09") && !exp.is_empty() && (q.bits as u64 ^ q.len as u64 ^ ctx.step as u64) % 4 == 0 {
+            let jj = (mix64(salt ^ q.bits as u64 ^ q.len as u64) % (exp.len() as u64 + 1)) as usize;
+            let kk = (mix64(salt ^ 0x31 ^ q.len as u64) % 3) as usize;
+            let r = ctx.obs("C09", "cover(consumers)", || consumer_checks(|| real.cover(&p), |(pp, v)| (pp.raw().key(), v.payload), &exp, jj, kk))?;
+            consumers!(ctx, "C09", "cover", r);
+            let r = ctx.obs("C09", "cover_keys(consumers)", || consumer_checks(|| real.cover_keys(&p), |pp| pp.raw().key(), &expk, jj, kk))?;
+            consumers!(ctx, "C09", "cover_keys", r);
+            let r = ctx.obs("C09", "cover_values(consumers)", || consumer_checks(|| real.cover_values(&p), |v| v.payload, &expv, jj, kk))?;
+            consumers!(ctx, "C09", "cover_values", r);
+        }
         let first = spm(&t.ents, q);
         let g = ctx.obs("C09", "get_spm", || real.get_spm(&p).map(|(pp, v)| (pp.raw(), v.payload)))?;
         chk!(ctx, "C09", ent_eq(g, first), "get_spm", "get_spm({q}) = {:?}, expected {:?}; stored {:?}", g, first, t.ents);
@@ -431,6 +601,12 @@ pub fn pack_c09_set<P: SimPrefix>(ctx: &mut Ctx, cfg: &Cfg, real: &PrefixSet<P>,
             (v.into_iter().map(|pp| pp.raw().key()).collect::<Vec<_>>(), f, c)
         })?;
         seq_check!(ctx, "C09", format!("set.cover({q})"), g, expk, f, c);
+        if ctx.is("C09") && !expk.is_empty() && (q.bits as u64 ^ q.len as u64 ^ ctx.step as u64) % 4 == 0 {
+            let jj = (mix64(salt ^ q.bits as u64 ^ q.len as u64) % (expk.len() as u64 + 1)) as usize;
+            let kk = (mix64(salt ^ 0x31 ^ q.len as u64) % 3) as usize;
+            let r = ctx.obs("C09", "set.cover(consumers)", || consumer_checks(|| real.cover(&p), |pp| pp.raw().key(), &expk, jj, kk))?;
+            consumers!(ctx, "C09", "set.cover", r);
+        }
         let g = ctx.obs("C09", "set.get_spm", || real.get_spm(&p).map(|pp| pp.raw()))?;
         chk!(ctx, "C09", key_eq(g, chain.first().copied()), "set.get_spm", "set.get_spm({q}) = {:?}, expected {:?}", g, chain.first());
         let g = ctx.obs("C09", "set.get_lpm", || real.get_lpm(&p).map(|pp| pp.raw()))?;
@@ -464,6 +640,14 @@ pub fn pack_c10_map<P: SimPrefix>(ctx: &mut Ctx, cfg: &Cfg, real: &mut PrefixMap
             (v.into_iter().map(|(pp, v)| (pp.raw(), v.payload)).collect::<Vec<_>>(), f, c)
         })?;
         seq_check!(ctx, "C10", format!("children_mut({q})"), g, exp, f, c);
+        if ctx.is("C10") && exp.len() >= 2 && (n + ctx.step) % 3 == 0 {
+            let jj = (mix64(salt ^ q.bits as u64 ^ q.len as u64) % (exp.len() as u64 + 1)) as usize;
+            let kk = (mix64(salt ^ 0x31 ^ q.len as u64) % 3) as usize;
+            let r = ctx.obs("C10", "children(consumers)", || consumer_checks(|| real.children(&p), |(pp, v)| (pp.raw(), v.payload), &exp, jj, kk))?;
+            consumers!(ctx, "C10", "children", r);
+            let r = ctx.obs("C10", "children.clone_from", || clone_from_check(|| real.children(&p), |(pp, v)| (pp.raw(), v.payload), &exp, jj, 1, cap))?;
+            consumers!(ctx, "C10", "children", r);
+        }
         if (n + ctx.step) % 7 == 0 {
             let (g, f, c) = ctx.obs("C10", "into_children", || {
                 let mut it = real.clone().into_children(&p);
@@ -487,6 +671,11 @@ pub fn pack_c10_set<P: SimPrefix>(ctx: &mut Ctx, cfg: &Cfg, real: &PrefixSet<P>,
             (v.into_iter().map(|pp| pp.raw()).collect::<Vec<_>>(), f, c)
         })?;
         seq_check!(ctx, "C10", format!("set.children({q})"), g, exp, f, c);
+        if ctx.is("C10") && exp.len() >= 2 {
+            let jj = (mix64(salt ^ q.bits as u64 ^ q.len as u64) % (exp.len() as u64 + 1)) as usize;
+            let r = ctx.obs("C10", "set.children(consumers)", || consumer_checks(|| real.children(&p), |pp| pp.raw(), &exp, jj, 1))?;
+            consumers!(ctx, "C10", "set.children", r);
+        }
     }
     Ok(())
 }
